@@ -4,43 +4,71 @@
    operation sequence in the stated domain and both SupportNegativeIndices settings. *)
 From Coq Require Import Lia.
 From JP Require Import Bytes Json Text Strings Den Pointer Rfc6902 ImplV5 DecodeFacts JsonFacts Abs EqualFacts
-                       ImplFacts RefFacts ApplyFacts.
+                       ImplFacts RefFacts ApplyFacts Codec StrInv.
 
 (* ---- good nodes and containers ---- *)
-Definition ngood (n : node) : Prop := nwf n /\ nlit n.
+(* nwf: no duplicate names, key list and map agree; nlit: number literals are number literals;
+   nstr (StrInv.v): raw messages spell their strings with bodies the scanner accepts, the member
+   names of parsed objects are valid UTF-8 (what deepCopy's re-encoding needs to be a round trip) *)
+Definition ngood (n : node) : Prop := nwf n /\ nlit n /\ nstr n.
 Definition cval (c : con) : ojson := aval (node_of_con c).
 Definition cgood (c : con) : Prop :=
   ngood (node_of_con c) /\ match c with KDocNil _ _ => False | _ => True end.
 
-Lemma ngood_nil : ngood NNil. Proof. split; exact I. Qed.
+Lemma ngood_nil : ngood NNil. Proof. repeat split. Qed.
 
-Lemma Forall_ngood_split (l : list node) : Forall ngood l <-> Forall nwf l /\ Forall nlit l.
+Lemma Forall_ngood_split (l : list node) : Forall ngood l <-> Forall nwf l /\ Forall nlit l /\ Forall nstr l.
 Proof.
   unfold ngood. rewrite !Forall_forall. split.
-  - intro H. split; intros x Hx; apply (H x Hx).
-  - intros [H1 H2] x Hx. split; auto.
+  - intro H. repeat split; intros x Hx; apply (H x Hx).
+  - intros [H1 [H2 H3]] x Hx. repeat split; auto.
 Qed.
 
 Lemma ngood_ary ns : ngood (NAry ns) <-> Forall ngood ns.
-Proof. unfold ngood at 1. rewrite nwf_ary, nlit_ary, Forall_ngood_split. reflexivity. Qed.
+Proof. unfold ngood at 1. rewrite nwf_ary, nlit_ary, nstr_ary, Forall_ngood_split. reflexivity. Qed.
 
+(* the names in the map are those of the key list (keys_agree): only the key list is mentioned *)
 Lemma ngood_doc keys obj :
-  ngood (NDoc keys obj) <-> keys_agree keys obj /\ Forall (fun kv => ngood (snd kv)) obj.
+  ngood (NDoc keys obj) <-> keys_agree keys obj /\ Forall utf8 keys /\ Forall (fun kv => ngood (snd kv)) obj.
 Proof.
-  unfold ngood. rewrite nwf_doc, nlit_doc, !Forall_forall. split.
-  - intros [[A W] L]. split; [exact A|]. intros kv H. split; [apply (W kv H) | apply (L kv H)].
-  - intros [A G]. split; [split; [exact A|]|]; intros kv H; apply (G kv H).
+  unfold ngood. rewrite nwf_doc, nlit_doc, nstr_doc, !Forall_forall. split.
+  - intros [[A W] [L [U S]]]. split; [exact A|]. split; [exact U|].
+    intros kv H. split; [apply (W kv H) | split; [apply (L kv H) | apply (S kv H)]].
+  - intros [A [U G]]. split; [split; [exact A|]; intros kv H; apply (G kv H)|].
+    split; [intros kv H; apply (G kv H)|]. split; [exact U|].
+    intros kv H. split; [|apply (G kv H)]. apply U. destruct A as [_ [_ A]]. apply A. apply in_map. exact H.
+Qed.
+
+Lemma ngood_raw t : ngood (NRaw t) <-> tnodup t = true /\ tlit t = true /\ tsb t.
+Proof. reflexivity. Qed.
+
+Lemma Forall_utf8_doc_set keys (obj : list (bytes * node)) k v :
+  Forall utf8 keys -> utf8 k -> Forall utf8 (fst (doc_set keys obj k v)).
+Proof.
+  intros U Uk. unfold doc_set. cbn [fst]. destruct (kmem k keys); [exact U|].
+  apply Forall_app. split; [exact U | constructor; [exact Uk | constructor]].
+Qed.
+
+Lemma Forall_kdel1 (P : bytes -> Prop) k keys : Forall P keys -> Forall P (kdel1 k keys).
+Proof.
+  induction 1 as [|x l Hx Hl IH]; simpl; [constructor|]. destruct (bseq k x); [assumption | constructor; assumption].
 Qed.
 
 (* the token domain, on decoded reference tokens: non-empty; numeric spellings are canonical
-   (0, a nonzero digit followed by digits, or '-' followed by such a positive number) and fit 64 bits *)
+   (0, a nonzero digit followed by digits, or '-' followed by such a positive number) and fit 64 bits
+   (tok_small cannot be dropped without bounding array lengths: PointerDomain.v,
+   big_index_needs_length_bound); the token is valid UTF-8 (add makes it a member name, which copy
+   re-encodes; true of every token of a decoded patch: PointerDomain.v, utf8_pointer_tokens) *)
 Definition tok_dom (t : bytes) : Prop :=
-  t <> [] /\ tok_small t /\ (forall z, atoi t = Some z -> tok_canonical t).
+  t <> [] /\ tok_small t /\ (forall z, atoi t = Some z -> tok_canonical t) /\ utf8 t.
+
+Lemma tok_dom_utf8 t : tok_dom t -> utf8 t.
+Proof. intros [_ [_ [_ U]]]. exact U. Qed.
 
 Lemma tok_dom_cases t : tok_dom t ->
   tok_canonical t \/ (atoi t = None /\ canonical_nat t = None /\ canonical_neg t = None).
 Proof.
-  intros [NE [[S1 S2] C]]. destruct (atoi t) as [z|] eqn:A; [left; eauto|]. right. split; auto. split.
+  intros [NE [[S1 S2] [C _]]]. destruct (atoi t) as [z|] eqn:A; [left; eauto|]. right. split; auto. split.
   - destruct (canonical_nat t) as [n|] eqn:E; auto. rewrite (atoi_canonical_nat _ _ E (S1 _ eq_refl)) in A. discriminate.
   - destruct (canonical_neg t) as [k|] eqn:E; auto. destruct (atoi_canonical_neg _ _ E (S2 _ eq_refl)) as [A' _]. congruence.
 Qed.
@@ -81,7 +109,7 @@ Lemma con_get_sim o c key :
   end.
 Proof.
   intros [G NK] D. destruct c as [self keys obj|self|self ns]; [| contradiction |].
-  - apply ngood_doc in G as [Ag Gv]. unfold cval. cbn [node_of_con]. rewrite aval_doc. cbn [child_at con_get].
+  - apply ngood_doc in G as [Ag [Uk Gv]]. unfold cval. cbn [node_of_con]. rewrite aval_doc. cbn [child_at con_get].
     destruct key as [|b key]; [destruct D as [NE _]; congruence|].
     rewrite (aget_abs_members_agree keys obj (b :: key) Ag).
     destruct (aget (b :: key) obj) as [v|] eqn:E; cbn [option_map]; [|eauto].
@@ -109,18 +137,20 @@ Lemma into_con_sim v :
   then exists ch, into_con v = Some ch /\ cval ch = aval v /\ cgood ch
   else into_con v = None.
 Proof.
-  intros [W L]. destruct v as [|t|keys obj|ns]; cbn [aval into_con].
+  intros [W [L S]]. destruct v as [|t|keys obj|ns]; cbn [aval into_con].
   - reflexivity.
-  - apply nwf_raw in W. unfold nlit in L. destruct t; try reflexivity.
+  - apply nwf_raw in W. unfold nlit in L. apply nstr_raw in S. destruct t; try reflexivity.
     + (* array *) simpl is_container. pose proof (parsed_arr l W) as [P1 P2].
       exists (KAry NNil (map child l)). split; auto. split; [exact P1|]. split; [|exact I]. split; [exact P2|].
+      split; [|apply nstr_parsed_arr; exact S].
       apply nlit_ary. rewrite Forall_map. simpl in L. rewrite forallb_forall in L. apply Forall_forall.
       intros t Ht. apply nlit_child. auto.
     + (* object *) pose proof (den_obj_nodup ms W) as D. rewrite D. simpl is_container.
       pose proof (parsed_obj ms W) as P. pose proof W as W'. apply tnodup_obj in W' as [N F].
       rewrite doc_of_nodup in * by exact N. destruct P as [P1 P2].
       eexists. split; [reflexivity|]. split; [unfold cval; cbn [node_of_con]; rewrite P1; exact D|].
-      split; [|exact I]. split; [exact P2|]. cbn [node_of_con]. apply nlit_doc. rewrite Forall_map.
+      split; [|exact I]. split; [exact P2|]. cbn [node_of_con]. split; [|apply nstr_parsed_obj; exact S].
+      apply nlit_doc. rewrite Forall_map.
       apply tlit_members in L. rewrite Forall_forall in *. intros kv Hk. apply nlit_child. auto.
   - cbn [is_container]. exists (KDoc NNil keys obj). split; auto. split; [reflexivity|].
     split; [split; auto | exact I].
@@ -171,13 +201,13 @@ Lemma con_put_sim o c key ch v :
   cval (con_put o c key ch) = put_child (dia o) (cval c) key (aval ch) /\ cgood (con_put o c key ch).
 Proof.
   intros [G NK] D Hg Gc. destruct c as [self keys obj|self|self ns]; [| contradiction |].
-  - apply ngood_doc in G as [Ag Gv]. destruct key as [|b key]; [destruct D as [NE _]; congruence|].
+  - apply ngood_doc in G as [Ag [Uk Gv]]. destruct key as [|b key]; [destruct D as [NE _]; congruence|].
     cbn [con_get] in Hg. destruct (aget (b :: key) obj) as [v'|] eqn:E; try discriminate.
     assert (Kin : kmem (b :: key) keys = true).
     { apply kmem_In. destruct Ag as [_ [_ Ag']]. apply Ag'. eapply aget_In_fst; eauto. }
     pose proof (abs_doc_set keys obj (b :: key) ch Ag) as DS. unfold doc_set in DS. rewrite Kin in DS.
     destruct DS as [D1 D2]. cbn [con_put]. unfold cval. cbn [node_of_con]. rewrite !aval_doc. cbn [put_child].
-    split; [now rewrite D1|]. split; [|exact I]. cbn [node_of_con]. apply ngood_doc. split; auto.
+    split; [now rewrite D1|]. split; [|exact I]. cbn [node_of_con]. apply ngood_doc. split; auto. split; auto.
     apply Forall_aset; auto.
   - apply ngood_ary in G. destruct key as [|b key]; [destruct D as [NE _]; congruence|].
     cbn [con_get] in Hg. destruct (resolve_idx_get o (ImplV5.zlen ns) (b :: key)) as [i| |] eqn:R; try discriminate.
@@ -318,10 +348,11 @@ Lemma con_add_sim o cp key v :
   end.
 Proof.
   intros [G NK] D Gv. destruct cp as [self keys obj|self|self ns]; [| contradiction |].
-  - apply ngood_doc in G as [Ag Gs]. unfold cval. cbn [node_of_con]. rewrite aval_doc. cbn [add_leaf con_add].
+  - apply ngood_doc in G as [Ag [Uk Gs]]. unfold cval. cbn [node_of_con]. rewrite aval_doc. cbn [add_leaf con_add].
     pose proof (abs_doc_set keys obj key v Ag) as DS. destruct (doc_set keys obj key v) as [k' o'] eqn:E.
     destruct DS as [D1 D2]. eexists. split; [reflexivity|]. unfold cval. cbn [node_of_con]. rewrite aval_doc, D1.
     split; auto. split; [|exact I]. cbn [node_of_con]. apply ngood_doc. split; auto.
+    pose proof (Forall_utf8_doc_set keys obj key v Uk (tok_dom_utf8 _ D)) as Uk'. rewrite E in Uk'. split; [exact Uk'|].
     unfold doc_set in E. inversion E; subst. apply Forall_aset; auto.
   - apply ngood_ary in G. unfold cval. cbn [node_of_con aval add_leaf con_add].
     assert (AT : add_tok key \/ (bseq key [x2d] = false /\ atoi key = None /\ canonical_nat key = None /\ canonical_neg key = None)).
@@ -346,7 +377,7 @@ Lemma con_remove_sim o cp key :
   end.
 Proof.
   intros Al [G NK] D. destruct cp as [self keys obj|self|self ns]; [| contradiction |].
-  - apply ngood_doc in G as [Ag Gs]. unfold cval. cbn [node_of_con]. rewrite aval_doc. cbn [remove_leaf con_remove].
+  - apply ngood_doc in G as [Ag [Uk Gs]]. unfold cval. cbn [node_of_con]. rewrite aval_doc. cbn [remove_leaf con_remove].
     assert (Am : amem key (abs_members keys obj) = amem key obj).
     { unfold amem. rewrite (aget_abs_members_agree keys obj key Ag). destruct (aget key obj); reflexivity. }
     rewrite Am. destruct (amem key obj) eqn:M.
@@ -354,7 +385,8 @@ Proof.
       { apply kmem_In. destruct Ag as [_ [_ Ag']]. apply Ag'. apply amem_In. exact M. }
       rewrite Kin. destruct (abs_del keys obj key Ag) as [A1 A2].
       eexists. split; [reflexivity|]. unfold cval. cbn [node_of_con]. rewrite aval_doc, A1. split; auto.
-      split; [|exact I]. cbn [node_of_con]. apply ngood_doc. split; auto. apply Forall_adel; auto.
+      split; [|exact I]. cbn [node_of_con]. apply ngood_doc. split; auto.
+      split; [apply Forall_kdel1; exact Uk | apply Forall_adel; auto].
     + rewrite Al. exists EMissing. split; auto.
   - apply ngood_ary in G. unfold cval. cbn [node_of_con aval remove_leaf con_remove].
     unfold Rfc6902.zlen. rewrite map_length.
@@ -372,7 +404,7 @@ Lemma con_set_sim o cp key v old :
   exists cp', con_set o cp key v = Ok cp' /\ replace_leaf (dia o) (aval v) (cval cp) key = ROk (cval cp') /\ cgood cp'.
 Proof.
   intros [G NK] D Gv Hg. destruct cp as [self keys obj|self|self ns]; [| contradiction |].
-  - apply ngood_doc in G as [Ag Gs]. destruct key as [|b key]; [destruct D as [NE _]; congruence|].
+  - apply ngood_doc in G as [Ag [Uk Gs]]. destruct key as [|b key]; [destruct D as [NE _]; congruence|].
     cbn [con_get] in Hg. destruct (aget (b :: key) obj) as [v'|] eqn:E; try discriminate.
     unfold cval. cbn [node_of_con]. rewrite aval_doc. cbn [replace_leaf con_set].
     assert (Am : amem (b :: key) (abs_members keys obj) = true).
@@ -381,6 +413,7 @@ Proof.
     destruct (doc_set keys obj (b :: key) v) as [k' o'] eqn:Eds. destruct DS as [D1 D2].
     eexists. split; [reflexivity|]. unfold cval. cbn [node_of_con]. rewrite aval_doc, D1. split; auto.
     split; [|exact I]. cbn [node_of_con]. apply ngood_doc. split; auto.
+    pose proof (Forall_utf8_doc_set keys obj (b :: key) v Uk (tok_dom_utf8 _ D)) as Uk'. rewrite Eds in Uk'. split; [exact Uk'|].
     unfold doc_set in Eds. inversion Eds; subst. apply Forall_aset; auto.
   - apply ngood_ary in G. destruct key as [|b key]; [destruct D as [NE _]; congruence|].
     cbn [con_get] in Hg. destruct (resolve_idx_get o (ImplV5.zlen ns) (b :: key)) as [i| |] eqn:R; try discriminate.
@@ -473,7 +506,7 @@ Definition sval (st : state) : ojson := match s_root st with RCon c => cval c | 
 Definition opv (op : operation) : node := match op_value op with Some v => v | None => NNil end.
 
 Definition val_good (op : operation) : Prop :=
-  match aget (B "value") op with Some (Some t) => tnodup t = true /\ tlit t = true | _ => True end.
+  match aget (B "value") op with Some (Some t) => tnodup t = true /\ tlit t = true /\ tsb t | _ => True end.
 
 Definition ref_value (op : operation) : ojson :=
   match aget (B "value") op with Some (Some t) => den t | _ => ONull end.
@@ -484,8 +517,8 @@ Proof. unfold opv, op_value, ref_value. destruct (aget (B "value") op) as [[t|]|
 Lemma opv_good op : val_good op -> ngood (opv op).
 Proof.
   unfold val_good, opv, op_value. destruct (aget (B "value") op) as [[t|]|].
-  - intros [T L]. split; [apply nwf_raw; exact T | exact L].
-  - intros _. split; reflexivity.
+  - intros G. apply ngood_raw. exact G.
+  - intros _. apply ngood_raw. repeat split.
   - intros _. apply ngood_nil.
 Qed.
 
@@ -616,25 +649,26 @@ Proof.
   apply E.
 Qed.
 
-Lemma deep_t_sim t : tnodup t = true -> tlit t = true -> aval (deep_t t) = den t /\ ngood (deep_t t).
+Lemma deep_t_sim t : tnodup t = true -> tlit t = true -> tsb t -> aval (deep_t t) = den t /\ ngood (deep_t t).
 Proof.
-  induction t using tjson_rect'; intros T L; try (split; [reflexivity | split; [exact T | exact L]]).
+  induction t using tjson_rect'; intros T L B; try (split; [reflexivity | split; [exact T | split; [exact L | exact B]]]).
   - split; [reflexivity | apply ngood_nil].
   - (* array *)
-    apply tnodup_arr in T. simpl in L. rewrite forallb_forall in L. rewrite Forall_forall in H, T.
+    apply tnodup_arr in T. simpl in L. rewrite forallb_forall in L. apply tsb_arr in B. rewrite Forall_forall in H, T, B.
     cbn [deep_t]. split.
     + cbn [aval den]. f_equal. rewrite map_map. apply map_ext_in. intros x Hx. apply (H x Hx); auto.
     + apply ngood_ary. rewrite Forall_map. apply Forall_forall. intros x Hx. apply (H x Hx); auto.
   - (* object *)
     pose proof (den_obj_nodup ms T) as D. apply tnodup_obj in T as [N F]. apply tlit_members in L.
+    pose proof (tsb_obj_keys ms B) as Bk. apply tsb_obj_vals in B.
     rewrite deep_t_obj, build_with_nodup by exact N. simpl app.
     set (obj := map (fun kv => (unquote (fst kv), deep_t (snd kv))) ms).
     assert (K : map fst obj = map (fun kv => unquote (fst kv)) ms) by (unfold obj; rewrite map_map; reflexivity).
-    rewrite <- K. assert (No : NoDup (map fst obj)) by (rewrite K; exact N).
-    rewrite Forall_forall in H, F, L. split.
+    rewrite <- K. rewrite <- K in Bk. assert (No : NoDup (map fst obj)) by (rewrite K; exact N).
+    rewrite Forall_forall in H, F, L, B. split.
     + rewrite aval_doc, abs_members_self, D by exact No. f_equal. unfold obj, den_members. rewrite map_map.
       apply map_ext_in. intros kv Hk. simpl. f_equal. apply (H kv Hk); auto.
-    + apply ngood_doc. split; [apply keys_agree_self; exact No|]. unfold obj. rewrite Forall_map.
+    + apply ngood_doc. split; [apply keys_agree_self; exact No|]. split; [exact Bk|]. unfold obj. rewrite Forall_map.
       apply Forall_forall. intros kv Hk. simpl. apply (H kv Hk); auto.
 Qed.
 
@@ -642,8 +676,8 @@ Lemma deep_sim n : ngood n -> aval (deep n) = aval n /\ ngood (deep n).
 Proof.
   induction n using node_rect'; intro G.
   - split; [reflexivity | exact G].
-  - destruct G as [W L]. destruct t; try (apply deep_t_sim; auto); split; try reflexivity; split; auto.
-  - apply ngood_doc in G as [Ag Gs]. cbn [deep].
+  - destruct G as [W [L S]]. destruct t; try (apply deep_t_sim; auto); split; try reflexivity; split; auto.
+  - apply ngood_doc in G as [Ag [Uk Gs]]. cbn [deep].
     set (obj' := map (fun kv => (fst kv, deep (snd kv))) obj).
     assert (K : map fst obj' = map fst obj) by (unfold obj'; rewrite map_map; reflexivity).
     assert (Lk : forall k, aget k obj' = option_map deep (aget k obj)).
@@ -653,7 +687,7 @@ Proof.
       destruct (aget k obj) as [v|] eqn:E; auto. simpl. apply aget_In in E. apply (H _ E). apply (Gs _ E).
     + apply ngood_doc. split.
       * destruct Ag as [A1 [A2 A3]]. split; auto. split; rewrite K; auto.
-      * unfold obj'. rewrite Forall_map. apply Forall_forall. intros kv Hk. simpl. apply (H _ Hk). apply (Gs _ Hk).
+      * split; [exact Uk|]. unfold obj'. rewrite Forall_map. apply Forall_forall. intros kv Hk. simpl. apply (H _ Hk). apply (Gs _ Hk).
   - apply ngood_ary in G. rewrite Forall_forall in H, G. cbn [deep]. split.
     + cbn [aval]. f_equal. rewrite map_map. apply map_ext_in. intros x Hx. apply (H x Hx). auto.
     + apply ngood_ary. rewrite Forall_map. apply Forall_forall. intros x Hx. apply (H x Hx). auto.
@@ -676,7 +710,7 @@ Lemma test_value_rel v ov : ngood v -> ngood ov ->
   jeq (aval v) (aval ov) =
   if is_null v then is_null ov else if is_null ov then false else node_equal v ov.
 Proof.
-  intros [Wv Lv] [Wo Lo]. rewrite (is_null_onull v), (is_null_onull ov).
+  intros [Wv [Lv _]] [Wo [Lo _]]. rewrite (is_null_onull v), (is_null_onull ov).
   destruct (onull (aval v)) eqn:N1.
   - destruct (aval v); try discriminate. apply jeq_null_l.
   - destruct (onull (aval ov)) eqn:N2.
@@ -880,14 +914,14 @@ Qed.
 
 (* ---- operations on the whole document (path "") ---- *)
 Lemma root_value_sim t (self : node) :
-  tnodup t = true -> tlit t = true ->
+  tnodup t = true -> tlit t = true -> tsb t ->
   match t with
   | TObj ms => let (k, ob) := doc_of ms in cgood (KDoc self k ob) /\ cval (KDoc self k ob) = den t
   | TArr l => cgood (KAry self (map child l)) /\ cval (KAry self (map child l)) = den t
   | _ => is_container (den t) = false
   end.
 Proof.
-  intros T L. pose proof (into_con_sim (NRaw t) (conj T L)) as IC. cbn [aval] in IC.
+  intros T L B. pose proof (into_con_sim (NRaw t) (conj T (conj L B))) as IC. cbn [aval] in IC.
   destruct t; try reflexivity.
   - simpl is_container in IC. destruct IC as [ch [H1 [H2 H3]]]. cbn [into_con] in H1. inversion H1; subst ch.
     split; [split; [exact (proj1 H3) | exact I] | exact H2].
@@ -898,13 +932,13 @@ Qed.
 
 Lemma op_add_root_sim o st op t :
   op_str op (B "path") = Ok [] -> aget (B "value") op = Some (Some t) -> t <> TNull ->
-  tnodup t = true -> tlit t = true ->
+  tnodup t = true -> tlit t = true -> tsb t ->
   if is_container (den t)
   then exists st', op_add o st op = Ok st' /\ sval st' = den t /\ sgood st' /\ s_acc st' = s_acc st
   else exists e, op_add o st op = Err e /\ plain_err e = true.
 Proof.
-  intros Hp Hv NN T L. unfold op_add, op_value. rewrite Hp, Hv. unfold root_of_value.
-  pose proof (root_value_sim t (NRaw t) T L) as RV.
+  intros Hp Hv NN T L B. unfold op_add, op_value. rewrite Hp, Hv. unfold root_of_value.
+  pose proof (root_value_sim t (NRaw t) T L B) as RV.
   destruct t; try congruence; try (simpl; eexists; split; reflexivity).
   - destruct RV as [R1 R2]. rewrite <- R2. simpl is_container.
     replace (is_container (cval (KAry (NRaw (TArr l)) (map child l)))) with true by reflexivity.
@@ -917,13 +951,13 @@ Qed.
 
 Lemma op_replace_root_sim o st op t :
   op_str op (B "path") = Ok [] -> aget (B "value") op = Some (Some t) -> t <> TNull ->
-  tnodup t = true -> tlit t = true ->
+  tnodup t = true -> tlit t = true -> tsb t ->
   if is_container (den t)
   then exists st', op_replace o st op = Ok st' /\ sval st' = den t /\ sgood st' /\ s_acc st' = s_acc st
   else exists e, op_replace o st op = Err e /\ plain_err e = true.
 Proof.
-  intros Hp Hv NN T L. unfold op_replace, op_value. rewrite Hp, Hv.
-  pose proof (root_value_sim t NNil T L) as RV.
+  intros Hp Hv NN T L B. unfold op_replace, op_value. rewrite Hp, Hv.
+  pose proof (root_value_sim t NNil T L B) as RV.
   destruct t; try congruence; try (simpl; eexists; split; reflexivity).
   - destruct RV as [R1 R2]. rewrite <- R2.
     replace (is_container (cval (KAry NNil (map child l)))) with true by reflexivity.
@@ -943,7 +977,7 @@ Proof.
   intros Hr G Hp Vg. pose proof (opv_good op Vg) as Gv. unfold op_test. rewrite Hp, Hr. fold (opv op).
   rewrite <- opv_aval.
   assert (EQ : node_equal (node_of_con c) (opv op) = jeq (cval c) (aval (opv op))).
-  { destruct G as [[W L] _]. destruct Gv. apply node_equal_spec; auto. }
+  { destruct G as [[W [L _]] _]. destruct Gv as [Wv [Lv _]]. apply node_equal_spec; auto. }
   destruct c as [s k ob| |s ns]; [| exfalso; exact (proj2 G) |]; cbn [root_node]; rewrite EQ;
     destruct (jeq _ _); auto.
   - destruct (deep_sim (NDoc k ob) (proj1 G)) as [D1 D2]. cbn [deep] in *.
@@ -956,22 +990,17 @@ Qed.
 
 (* ---- copy ---- *)
 (* deepCopy re-encodes the value (MarshalEscaped) and stores the bytes as a fresh raw node.  That the
-   re-encoded text denotes the same value is the codec round trip (quote/unquote, escaping); it is
-   isolated here as a hypothesis of this section and discharged in Codec.v where it is proved. *)
-Definition codec_ok : Prop :=
-  forall esc v, ngood v -> v <> NNil ->
-    den (escape_tree esc (render esc v)) = aval v /\ tlit (escape_tree esc (render esc v)) = true.
-
+   re-encoded text denotes the same value and satisfies the invariant again is the codec round trip
+   (StrInv.codec_node: quote/unquote on valid UTF-8 names, HTML escaping of scanner-accepted bodies). *)
 Lemma nnil_or (c : node) : c = NNil \/ c <> NNil.
 Proof. destruct c; auto; right; discriminate. Qed.
 
-Lemma deep_copy_sim o v : codec_ok -> ngood v ->
+Lemma deep_copy_sim o v : ngood v ->
   aval (fst (deep_copy o v)) = aval v /\ ngood (fst (deep_copy o v)).
 Proof.
-  intros CO G. unfold deep_copy. destruct (nnil_or v) as [->|NN]; [split; [reflexivity | apply ngood_nil]|].
-  destruct (CO (o_esc o) v G NN) as [C1 C2].
-  destruct v; try congruence; cbn [fst aval]; (split; [exact C1|]); split; try exact C2;
-    apply nwf_raw; unfold tnodup; rewrite C1; apply nwf_onodup; exact (proj1 G).
+  intros [W [L S]]. unfold deep_copy. destruct (nnil_or v) as [->|NN]; [split; [reflexivity | apply ngood_nil]|].
+  pose proof (codec_node (o_esc o) v W L S) as C. unfold enc in C.
+  destruct v; try congruence; cbn [fst]; exact C.
 Qed.
 
 Definition unit_fn (c' : con) (_ : bytes) : unit * con := (tt, c').
@@ -1007,7 +1036,7 @@ Definition get_fn (o : opts) (c' : con) (key : bytes) : res node * con := (con_g
 
 (* from not "", path not "", no limit *)
 Lemma op_copy_sim o st op rf r c :
-  codec_ok -> s_root st = RCon c -> cgood c -> o_limit o = 0%Z ->
+  s_root st = RCon c -> cgood c -> o_limit o = 0%Z ->
   op_str op (B "from") = Ok (x2f :: rf) -> Forall tok_dom (map decode_token (split_slash rf)) ->
   op_str op (B "path") = Ok (x2f :: r) -> Forall tok_dom (map decode_token (split_slash r)) ->
   match (v <- get_at (dia o) (ptoks rf) (cval c) ;; at_parent (dia o) (ptoks r) (cval c) (add_leaf (dia o) v)) with
@@ -1015,7 +1044,7 @@ Lemma op_copy_sim o st op rf r c :
   | RFail cz => exists e, op_copy o st op = Err e /\ cause_rel cz e
   end.
 Proof.
-  intros CO Hr G Lim Hf Df Hp Dp. unfold op_copy. rewrite Hf, Hr.
+  intros Hr G Lim Hf Df Hp Dp. unfold op_copy. rewrite Hf, Hr.
   change (find o c (x2f :: rf) _) with (find o c (x2f :: rf) (get_fn o)).
   pose proof (find_get_sim o c rf G Df) as FG. fold (get_fn o) in FG. unfold ptoks at 1.
   destruct (get_at (dia o) (map decode_token (path_parts rf) ++ [path_key rf]) (cval c)) as [j|cz] eqn:Eg; simpl.
@@ -1035,7 +1064,7 @@ Proof.
   change (find o c2 (x2f :: rf) _) with (find o c2 (x2f :: rf) (get_fn o)).
   pose proof (find_get_sim o c2 rf U3 Df) as FG2. fold (get_fn o) in FG2. rewrite U2 in FG2.
   unfold ptoks in Eg. rewrite Eg in FG2. destruct FG2 as [v [c3 [G1 [G2 [G3 _]]]]]. rewrite G1.
-  destruct (deep_copy_sim o v CO G3) as [DC1 DC2]. destruct (deep_copy o v) as [cp sz]. cbn [fst] in *.
+  destruct (deep_copy_sim o v G3) as [DC1 DC2]. destruct (deep_copy o v) as [cp sz]. cbn [fst] in *.
   rewrite Lim. change ((0 <? 0)%Z) with false. cbn [andb].
   change (find o c2 (x2f :: r) _) with (find o c2 (x2f :: r) (add_fn o cp)).
   pose proof (add_find_sim o c2 r cp U3 Dp DC2) as AF. rewrite U2, DC1, G2 in AF.
@@ -1047,7 +1076,7 @@ Qed.
 
 (* copy from "" (the whole document, as it is now) *)
 Lemma op_copy_root_sim o st op r c :
-  codec_ok -> s_root st = RCon c -> cgood c -> o_limit o = 0%Z ->
+  s_root st = RCon c -> cgood c -> o_limit o = 0%Z ->
   op_str op (B "from") = Ok [] ->
   op_str op (B "path") = Ok (x2f :: r) -> Forall tok_dom (map decode_token (split_slash r)) ->
   match at_parent (dia o) (ptoks r) (cval c) (add_leaf (dia o) (cval c)) with
@@ -1055,7 +1084,7 @@ Lemma op_copy_root_sim o st op r c :
   | RFail cz => exists e, op_copy o st op = Err e /\ cause_rel cz e
   end.
 Proof.
-  intros CO Hr G Lim Hf Hp Dp. unfold op_copy. rewrite Hf, Hr.
+  intros Hr G Lim Hf Hp Dp. unfold op_copy. rewrite Hf, Hr.
   assert (F0 : find o c [] (fun c' key => (con_get o c' key, c')) = (FoundAt (con_get o c []), c)) by reflexivity.
   rewrite F0.
   assert (G0 : exists self, con_get o c [] = Ok self).
@@ -1072,7 +1101,7 @@ Proof.
   2: { destruct FU as [c2 U1]. rewrite U1. unfold ptoks. rewrite at_parent_unreachable; auto; [|rewrite Ed; exact Cp].
        exists EMissing. split; reflexivity. }
   destruct FU as [c2 [U1 [U2 U3]]]. rewrite U1.
-  destruct (deep_copy_sim o (node_of_con c2) CO (proj1 U3)) as [DC1 DC2].
+  destruct (deep_copy_sim o (node_of_con c2) (proj1 U3)) as [DC1 DC2].
   destruct (deep_copy o (node_of_con c2)) as [cp sz]. cbn [fst] in *.
   rewrite Lim. change ((0 <? 0)%Z) with false. cbn [andb].
   change (find o c2 (x2f :: r) _) with (find o c2 (x2f :: r) (add_fn o cp)).
@@ -1111,13 +1140,13 @@ Lemma match_nonempty {A B} (l : list A) (a b : B) : l <> [] -> match l with [] =
 Proof. destruct l; congruence. Qed.
 
 Theorem step_sim o st op :
-  (op_kind op = KCopy -> codec_ok) -> sgood st -> plain_opts o -> op_dom op ->
+  sgood st -> plain_opts o -> op_dom op ->
   match rfc_step (dia o) (sval st) (den_op op) with
   | ROk j' => exists st', step o st op = Ok st' /\ sval st' = j' /\ sgood st'
   | RFail cz => exists e, step o st op = Err e /\ cause_rel cz e
   end.
 Proof.
-  intros CO [c [Hr G]] [Al [En Lim]] [Vg [path [Hp K]]].
+  intros [c [Hr G]] [Al [En Lim]] [Vg [path [Hp K]]].
   assert (SV : sval st = cval c) by (unfold sval; rewrite Hr; reflexivity).
   unfold rfc_step, step. rewrite ref_value_den_op.
   assert (RP : rpath (den_op op) = path) by (unfold den_op; simpl; rewrite Hp; reflexivity).
@@ -1130,8 +1159,8 @@ Proof.
       pose proof (op_add_sim o st op r c Hr G En Hp D Vg) as S.
       destruct (at_parent _ _ _ _); [destruct S as [st' [S1 [S2 [S3 _]]]]; eauto | exact S].
     + cbn [ptr_tokens rfc_add]. unfold ref_value. rewrite Hv.
-      unfold val_good in Vg. rewrite Hv in Vg. destruct Vg as [T L].
-      pose proof (op_add_root_sim o st op t Hp Hv NN T L) as S.
+      unfold val_good in Vg. rewrite Hv in Vg. destruct Vg as [T [L B]].
+      pose proof (op_add_root_sim o st op t Hp Hv NN T L B) as S.
       destruct (is_container (den t)); [destruct S as [st' [S1 [S2 [S3 _]]]]; eauto | exact S].
   - (* remove *)
     destruct K as [r [-> D]]. rewrite ptr_tokens_slash. fold (ptoks r). rewrite (match_nonempty _ _ _ (ptoks_nonempty r)).
@@ -1143,8 +1172,8 @@ Proof.
       pose proof (op_replace_sim o st op r c Hr G Hp D Vg) as S.
       destruct (at_parent _ _ _ _); [destruct S as [st' [S1 [S2 [S3 _]]]]; eauto | exact S].
     + cbn [ptr_tokens]. unfold ref_value. rewrite Hv.
-      unfold val_good in Vg. rewrite Hv in Vg. destruct Vg as [T L].
-      pose proof (op_replace_root_sim o st op t Hp Hv NN T L) as S.
+      unfold val_good in Vg. rewrite Hv in Vg. destruct Vg as [T [L B]].
+      pose proof (op_replace_root_sim o st op t Hp Hv NN T L B) as S.
       destruct (is_container (den t)); [destruct S as [st' [S1 [S2 [S3 _]]]]; eauto | exact S].
   - (* move *)
     destruct K as [[r [-> D]] [from [Hf Kf]]].
@@ -1167,7 +1196,7 @@ Proof.
     assert (RF : rfrom (den_op op) = from) by (unfold den_op; simpl; rewrite Hf; reflexivity). rewrite RF.
     destruct Kf as [[rf [-> Df]]| ->].
     + rewrite !ptr_tokens_slash. fold (ptoks r) (ptoks rf).
-      pose proof (op_copy_sim o st op rf r c (CO eq_refl) Hr G Lim Hf Df Hp D) as S.
+      pose proof (op_copy_sim o st op rf r c Hr G Lim Hf Df Hp D) as S.
       assert (E : (v <- get_at (dia o) (ptoks rf) (cval c);;
                    match ptoks r with [] => RFail FRoot | _ :: _ => at_parent (dia o) (ptoks r) (cval c) (add_leaf (dia o) v) end) =
                   (v <- get_at (dia o) (ptoks rf) (cval c);; at_parent (dia o) (ptoks r) (cval c) (add_leaf (dia o) v))).
@@ -1175,7 +1204,7 @@ Proof.
       rewrite E. exact S.
     + rewrite ptr_tokens_slash. cbn [ptr_tokens get_at bind]. fold (ptoks r).
       rewrite (match_nonempty _ _ _ (ptoks_nonempty r)).
-      exact (op_copy_root_sim o st op r c (CO eq_refl) Hr G Lim Hf Hp D).
+      exact (op_copy_root_sim o st op r c Hr G Lim Hf Hp D).
   - (* test *)
     destruct K as [[r [-> D]]| ->].
     + rewrite ptr_tokens_slash. fold (ptoks r). rewrite (match_nonempty _ _ _ (ptoks_nonempty r)).
@@ -1190,21 +1219,19 @@ Qed.
 (* ---- whole patches ---- *)
 Definition has_copy (p : list operation) : Prop := exists op, In op p /\ op_kind op = KCopy.
 
-Theorem apply_sim o : plain_opts o -> forall p, (has_copy p -> codec_ok) -> forall i st,
+Theorem apply_sim o : plain_opts o -> forall p i st,
   sgood st -> Forall op_dom p ->
   match rfc_apply_from (dia o) i (sval st) (map den_op p) with
   | Done doc => exists st', apply_from o i st p = AOk st' /\ sval st' = doc /\ sgood st'
   | Failed j cz => exists e, apply_from o i st p = AErr j e /\ cause_rel cz e
   end.
 Proof.
-  intros PO. induction p as [|op p IH]; intros CO i st G D; cbn [map rfc_apply_from apply_from].
+  intros PO. induction p as [|op p IH]; intros i st G D; cbn [map rfc_apply_from apply_from].
   - exists st. auto.
   - inversion D as [|? ? Dop Dp]; subst.
-    assert (CO1 : op_kind op = KCopy -> codec_ok) by (intro K; apply CO; exists op; split; [now left | exact K]).
-    assert (CO2 : has_copy p -> codec_ok) by (intros [op' [Hin K]]; apply CO; exists op'; split; [now right | exact K]).
-    pose proof (step_sim o st op CO1 G PO Dop) as S.
+    pose proof (step_sim o st op G PO Dop) as S.
     destruct (rfc_step (dia o) (sval st) (den_op op)) as [j'|cz].
-    + destruct S as [st' [S1 [S2 S3]]]. rewrite S1. specialize (IH CO2 (S i) st' S3 Dp). rewrite S2 in IH. exact IH.
+    + destruct S as [st' [S1 [S2 S3]]]. rewrite S1. specialize (IH (S i) st' S3 Dp). rewrite S2 in IH. exact IH.
     + destruct S as [e [S1 S2]]. rewrite S1. eauto.
 Qed.
 
@@ -1219,16 +1246,16 @@ From JP Require Import ParseFacts.
    (member order and number literals included); when the reference fails, Apply fails at the same
    operation with an error of the corresponding class *)
 Theorem api_apply_sim o indent p doc t :
-  (has_copy p -> codec_ok) -> plain_opts o -> parse doc = Some t -> root_container t = true -> tnodup t = true ->
+  plain_opts o -> parse doc = Some t -> root_container t = true -> tnodup t = true ->
   Forall op_dom p ->
   match rfc_apply (dia o) (den t) (map den_op p) with
   | Done j => exists n, api_apply o indent p doc = ROut (output o indent (render (o_esc o) n)) /\ aval n = j /\ ngood n
   | Failed i cz => exists e, api_apply o indent p doc = RErr (Some i) e /\ cause_rel cz e
   end.
 Proof.
-  intros CO PO P RC T D. unfold api_apply. destruct doc as [|b doc]; [rewrite parse_nil in P; discriminate|].
+  intros PO P RC T D. unfold api_apply. destruct doc as [|b doc]; [rewrite parse_nil in P; discriminate|].
   rewrite P. unfold apply_tree, load_doc. pose proof (parse_tlit _ _ P) as L.
-  pose proof (root_value_sim t (NRaw t) T L) as RV.
+  pose proof (root_value_sim t (NRaw t) T L (parse_tsb _ _ P)) as RV.
   assert (Start : exists c, (match t with
                              | TObj ms => let (k, ob) := doc_of ms in Ok (RCon (KDoc (NRaw t) k ob))
                              | TArr l => Ok (RCon (KAry (NRaw t) (map child l)))
@@ -1239,7 +1266,7 @@ Proof.
     - destruct RV as [R1 R2]. eexists. split; [reflexivity|]. split; auto.
     - destruct (doc_of ms) as [k ob]. destruct RV as [R1 R2]. eexists. split; [reflexivity|]. split; auto. }
   destruct Start as [c [S1 [S2 S3]]]. rewrite S1.
-  pose proof (apply_sim o PO p CO 0%nat (mkState (RCon c) 0) (ex_intro _ c (conj eq_refl S2)) D) as AS.
+  pose proof (apply_sim o PO p 0%nat (mkState (RCon c) 0) (ex_intro _ c (conj eq_refl S2)) D) as AS.
   unfold sval in AS at 1. cbn [s_root] in AS. rewrite S3 in AS. unfold rfc_apply.
   destruct (rfc_apply_from (dia o) 0 (den t) (map den_op p)) as [j|i cz].
   - destruct AS as [st' [A1 [A2 [c' [A3 A4]]]]]. rewrite A1. unfold marshal_root. rewrite A3.
